@@ -498,3 +498,26 @@ def sig_body(fnode_or_list):
             continue
         out.append(b)
     return out
+
+
+def local_defs(fnode):
+    """name -> list of value nodes assigned to that local (simple `name = value` assignments, incl. tuple unpacking
+    from a call, recorded with the whole value)"""
+    out = {}
+    for n in walk_local(fnode):
+        if isinstance(n, ast.Assign):
+            for t in n.targets:
+                if isinstance(t, ast.Name):
+                    out.setdefault(t.id, []).append(n.value)
+                elif isinstance(t, ast.Tuple):
+                    for e in t.elts:
+                        if isinstance(e, ast.Name):
+                            out.setdefault(e.id, []).append(n.value)
+        elif isinstance(n, ast.AnnAssign) and isinstance(n.target, ast.Name) and n.value is not None:
+            out.setdefault(n.target.id, []).append(n.value)
+    return out
+
+
+def find_local(fnode, pred):
+    """names of locals one of whose defining values satisfies pred(value node)"""
+    return [k for k, vs in local_defs(fnode).items() if any(pred(v) for v in vs)]
